@@ -26,7 +26,9 @@ type HarnessCfg struct {
 	MaxAlloc        int
 	MaxIteIndex     int
 	AppendSlack     int
-	GoPolicy        string // skip | run | queue
+	GoPolicy        string // skip | run | queue | explore
+	ContextBound    int    // explore: maximum number of preemptive context switches per path
+	FreeChoiceBound int    // explore: number of non-preemptive switch points explored nondeterministically (0 = all)
 	GoRunMatch      string // goroutines whose function name contains this run immediately
 	SortMapStrings  bool
 	MapOrderFork    bool
@@ -192,6 +194,7 @@ type HarnessResult struct {
 	Ends        map[string]int
 	EndMsgs     map[string]string
 	Violations  map[string]*AssertOutcome // label -> first counterexample
+	ViolTrace   map[string][]uint64
 	ViolCount   map[string]int
 	Inconcl     []string
 	Reached     map[string]bool
@@ -229,6 +232,10 @@ func (g *Engine) runPath(s *Solver, fn *ssa.Function, cfg *HarnessCfg, prefix []
 	if (end.kind == EndOK || end.kind == EndHalt) && (wantSample || pin != nil) {
 		r.Sample = e.sample(end.kind)
 	}
+	if end.kind == EndDeadlock && cfg.GoPolicy == "explore" && pin == nil {
+		// every thread blocked before the harness finished: a schedule-dependent violation
+		r.Asserts = append(r.Asserts, AssertOutcome{Label: "no-deadlock", Verdict: Sat, Observes: []string{trunc(end.msg, 400)}})
+	}
 	if end.kind == EndPanic && pin == nil {
 		// a panic reachable within the bounds violates the implicit "never
 		// panics" obligation of every harness; it is confirmed by native replay
@@ -248,7 +255,7 @@ func (g *Engine) Explore(name string, cfg HarnessCfg, workers int, nSamples int,
 	}
 	t0 := time.Now()
 	res := &HarnessResult{Name: name, Ends: map[string]int{}, EndMsgs: map[string]string{}, Violations: map[string]*AssertOutcome{},
-		ViolCount: map[string]int{}, Reached: map[string]bool{}, Funcs: map[*ssa.Function]bool{}, Spawned: map[string]bool{}, Knowns: map[string]int{}}
+		ViolCount: map[string]int{}, ViolTrace: map[string][]uint64{}, Reached: map[string]bool{}, Funcs: map[*ssa.Function]bool{}, Spawned: map[string]bool{}, Knowns: map[string]int{}}
 	var mu sync.Mutex
 	cond := sync.NewCond(&mu)
 	type workItem struct {
@@ -327,6 +334,7 @@ func (g *Engine) Explore(name string, cfg HarnessCfg, workers int, nSamples int,
 						res.ViolCount[a.Label]++
 						if _, ok := res.Violations[a.Label]; !ok {
 							res.Violations[a.Label] = &a
+							res.ViolTrace[a.Label] = r.Trace
 						}
 					} else if a.Verdict == Unknown {
 						res.Inconcl = append(res.Inconcl, a.Label+": "+a.Inconcl)
@@ -409,4 +417,29 @@ func (g *Engine) funcInfos(fs map[*ssa.Function]bool, onlyRepo bool) []FuncInfo 
 	}
 	sort.Slice(out, func(i, j int) bool { return out[i].Name < out[j].Name })
 	return out
+}
+
+// ReplaySchedule re-executes one recorded decision vector (schedule and data
+// decisions) on a fresh interpreter and reports whether the assertion `label`
+// fails again (or the path ends in the same deadlock/panic).
+func (g *Engine) ReplaySchedule(name string, cfg HarnessCfg, trace []uint64, label string) (bool, string) {
+	fn := g.ice.Func(name)
+	if fn == nil {
+		return false, "harness not found"
+	}
+	s, err := NewSolver(g.solverKind, &SolverStats{})
+	if err != nil {
+		return false, err.Error()
+	}
+	defer s.Close()
+	r := g.runPath(s, fn, &cfg, trace, nil, false, nil)
+	for _, a := range r.Asserts {
+		if a.Label == label && a.Verdict == Sat {
+			return true, "end=" + r.End.kind.String()
+		}
+	}
+	if label == "no-deadlock" && r.End.kind == EndDeadlock {
+		return true, r.End.msg
+	}
+	return false, "end=" + r.End.kind.String() + " " + r.End.msg
 }
